@@ -20,12 +20,17 @@ def main():
         seed, only = only[1], only[2:]
     out_md = "REVERIFY.md" if seed == "1" else "REVERIFY-seed%s.md" % seed
     rows = []
+    by_design = set()
     for meta_path in sorted(glob.glob(os.path.join(ROOT, "seeded", "*", "meta.json"))):
         d = os.path.dirname(meta_path)
         sid = os.path.basename(d)
         if only and not any(sid.startswith(o) for o in only):
             continue
         meta = json.load(open(meta_path))
+        if meta.get("not_detected_by_design"):
+            rows.append((sid, meta.get("property", "-"), "not run: outside the claimed domain (see meta.json)"))
+            by_design.add(sid)
+            continue
         props = sorted({k.split("/")[0] for k, v in meta.get("check_results", {}).items() if v.get("verdict") == "DETECTED"})
         if not props:
             props = [meta["property"]]
@@ -57,13 +62,13 @@ def main():
             f.write("# Quick-tier checks (seed %s) re-run against every stored seeded change\n\n" % seed + "| seeded change | check | verdict |\n|---|---|---|\n")
             for sid, prop, v in rows:
                 f.write("| %s | %s | %s |\n" % (sid, prop, v))
-    bad = [r for r in rows if not r[2].startswith("detected")]
+    bad = [r for r in rows if not r[2].startswith("detected") and r[0] not in by_design]
     seeds = sorted({r[0] for r in rows})
-    undetected = [s for s in seeds if not any(r[0] == s and r[2].startswith("detected") for r in rows)]
+    undetected = [s for s in seeds if s not in by_design and not any(r[0] == s and r[2].startswith("detected") for r in rows)]
     if not only:
         with open(os.path.join(ROOT, "seeded", out_md), "a") as f:
-            f.write("\n%d seeded changes, %d check runs; changes detected by no check: %s; check runs that did not detect (the change is caught by another check in the table): %s\n"
-                    % (len(seeds), len(rows), undetected or "none", ["%s/%s" % (r[0], r[1]) for r in bad] or "none"))
+            f.write("\n%d seeded changes (%d of them outside the claimed domain by design, not run), %d check runs; changes detected by no check: %s; check runs that did not detect (the change is caught by another check in the table): %s\n"
+                    % (len(seeds), len(by_design), len(rows) - len(by_design), undetected or "none", ["%s/%s" % (r[0], r[1]) for r in bad] or "none"))
     print("total", len(rows), "runs not detecting:", bad, "seeds detected by no check:", undetected)
 
 
